@@ -548,9 +548,50 @@ func knownNonNilError(v ssa.Value) bool {
 		return isAlloc
 	case *ssa.UnOp:
 		if g, ok := x.X.(*ssa.Global); ok && x.Op == token.MUL {
-			n := g.Name()
-			return n == "EOF" || len(n) > 3 && (n[:3] == "Err" || n[:3] == "err")
+			return globalIsErrSentinel(g)
 		}
 	}
 	return false
+}
+
+// globalIsErrSentinel: a package-level error variable that the package
+// initialiser sets to a freshly constructed (non-nil) error and that nothing
+// else in its package assigns.
+func globalIsErrSentinel(g *ssa.Global) bool {
+	if g.Pkg == nil {
+		return false
+	}
+	init := g.Pkg.Func("init")
+	if init == nil {
+		return false
+	}
+	set := false
+	ir.Instrs(init, func(in ssa.Instruction) {
+		st, ok := in.(*ssa.Store)
+		if !ok || st.Addr != ssa.Value(g) {
+			return
+		}
+		if knownNonNilError(st.Val) {
+			set = true
+		}
+	})
+	if !set {
+		return false
+	}
+	for _, m := range g.Pkg.Members {
+		fn, ok := m.(*ssa.Function)
+		if !ok || fn == init {
+			continue
+		}
+		reassigned := false
+		ir.Instrs(fn, func(in ssa.Instruction) {
+			if st, ok := in.(*ssa.Store); ok && st.Addr == ssa.Value(g) {
+				reassigned = true
+			}
+		})
+		if reassigned {
+			return false
+		}
+	}
+	return true
 }
